@@ -43,6 +43,15 @@ U = [36, 37, 638, 139]
 KIND_PSID = {"cam": 36, "vam": 638, "generic": 139, "denm": 37}
 
 
+def kind_psid(kind: str) -> int:
+    """ "generic:<psid>" = generic profile with that ITS-AID"""
+    return int(kind.split(":")[1]) if ":" in kind else KIND_PSID[kind]
+
+
+def base_kind(kind: str) -> str:
+    return kind.split(":")[0]
+
+
 class Sta:
     pass
 
@@ -50,27 +59,61 @@ class Sta:
 class Scenario:
     """N real stations on one PKI; the oracle's own bookkeeping of who knows whom"""
 
-    def __init__(self, ctx, n, preload, ticket_specs=None):
-        from .c03 import Net
+    def __init__(self, ctx, n, preload, ticket_specs=None, opts=None):
+        """opts (audit round): pos = position of all stations and centre of the DENM area; apps = {station: ITS-AID list of
+        its ticket}; ssp = tickets carry service specific permissions; aa_of = {station: 1 | 2} issuing authority of the
+        station's ticket (two authorities under the common root); knows_aa = {station: [1, 2]} authorities configured at the
+        station (default: both when aa_of is given)"""
+        from .c03 import Net, its_now_s
         self.ctx = ctx
         self.net = Net(ctx.rng)
         self.reg = sc.Reg()
         self.sta = []
         self.model_ops = []        # (station, flat op, receivers)
         self.impl = []             # per op: (sender result, receiver results, dumps)
-        tickets = [self.net.ticket() for _ in range(n)]
+        opts = opts or {}
+        self.pos = opts.get("pos", (413800000, 21100000))
+        aa_of = opts.get("aa_of", {})
+        aas = {1: self.net.aa}
+        if aa_of:
+            aas[2] = self.net.cert(self.net.root, [36], [(U + list(opts.get("more_psids", [])), 1)], "aa2", its_now_s())
+        tickets = []
+        for i in range(n):
+            app = opts.get("apps", {}).get(i, U)
+            tk = self.net.cert(aas[aa_of.get(i, 1)], app, None, None, its_now_s())
+            tickets.append(tk)
         for i, spec in (ticket_specs or {}).items():
+            if spec[0] == "start_at":
+                # the validity of the ticket starts exactly at schedule time spec[1] (ms, a whole second)
+                start_s = (VCLOCK.ms + 10_000 + spec[1] - sc.ITS_EPOCH_S * 1000 + 5000) // 1000
+                tbs = sc.make_tbs(None, U, None, start_s, ("hours", 1), self.net.pki.pub(tickets[i][1]))
+                tickets[i] = (sc.make_cert(self.net.pki, tbs, ("sha256AndDigest", sc.hashed_id8(self.net.aa[0])),
+                                           self.net.aa[1]), tickets[i][1])
+                continue
             # spec = (duration unit, amount, seconds of validity left at the start of the schedule)
             unit, amount, left_s = spec
-            from .c03 import its_now_s
             end_s = its_now_s() + left_s
             start_s = end_s - (amount * sc.UNIT_US[unit]) // 1_000_000
             tickets[i] = self.net.cert(self.net.aa, U, None, None, start_s + 1000, (unit, amount))
+        if opts.get("ssp"):
+            # real tickets carry service specific permissions next to each ITS-AID
+            for i in range(n):
+                tbs = tickets[i][0]["toBeSigned"]
+                for k, e in enumerate(tbs["appPermissions"]):
+                    e["ssp"] = ("bitmapSsp", bytes([1, 0xFF, k])) if k % 2 == 0 else ("opaque", bytes([k, 2, 3]))
+                iss = aas[aa_of.get(i, 1)]
+                tickets[i] = (sc.make_cert(self.net.pki, tbs, tickets[i][0]["issuer"], iss[1]), tickets[i][1])
+        self.aa_of = [aa_of.get(i, 1) for i in range(n)]
+        self.aas = aas
         for i in range(n):
-            known = [tickets[k] for k in preload.get(i, [])]
-            r = self.net.station(0x0A0B0C0D2000 + i, own=tickets[i], known=known, reg=self.reg)
+            known = [tickets[k] + (aas[self.aa_of[k]],) for k in preload.get(i, [])]
+            ka = opts.get("knows_aa", {}).get(i, sorted(aas))
+            r = self.net.station(0x0A0B0C0D2000 + i, own=tickets[i], known=known, reg=self.reg,
+                                 aas=[(aas[a], self.net.root) for a in ka], own_issuer=aas[self.aa_of[i]],
+                                 ego=opts.get("pos_of", {}).get(i, self.pos))
             s = Sta()
             s.i, s.r, s.own, s.joined = i, r, tickets[i], False
+            s.knows_aa = list(ka)
             s.h8 = sc.hashed_id8(tickets[i][0])
             s.confirms = []
             orig = r["st"].verify.verify
@@ -91,6 +134,16 @@ class Scenario:
         self.saw_unknown = [False] * n
         self.wanted = [[] for _ in range(n)]  # HashedId3 of tickets seen but not known, in order of first sighting
         self.pending = [[None] * n for _ in range(n)]   # [receiver][sender]: None | "rejected" | "requested"
+        # audit round: which receiver can chain which sender's ticket (it holds the issuing authority), the CA certificates
+        # each station holds (HashedId3 -> certificate) and the CA certificates peers asked it for (pending answers)
+        self.chain_ok = [[self.aa_of[i] in self.sta[j].knows_aa for i in range(n)] for j in range(n)]
+        self.held = []
+        for j in range(n):
+            h = {sc.hashed_id8(self.net.root[0])[-3:]: self.net.root[0]}
+            for a in self.sta[j].knows_aa:
+                h[sc.hashed_id8(aas[a][0])[-3:]] = aas[a][0]
+            self.held.append(h)
+        self.ca_asked = [[] for _ in range(n)]
 
     def dumps(self):
         return [s.r["st"].dump() for s in self.sta]
@@ -116,9 +169,11 @@ def send(ctx, sc_: Scenario, i: int, kind: str, data: bytes, t_ms: int, tag: str
     now_f = VCLOCK.time()
     inp = {"scenario": tag, "t_ms": t_ms, "sender": i, "kind": kind, "data": data.hex()}
     s.r["ll"].sent.clear()
+    full_kind, kind = kind, base_kind(kind)
     with contextlib.redirect_stdout(io.StringIO()):
         try:
-            s.r["router"].gn_data_request(requests()[kind](data))
+            rq = requests(sc_.pos)
+            s.r["router"].gn_data_request(rq["generic_psid"](data, kind_psid(full_kind)) if ":" in full_kind else rq[kind](data))
             err = None
         except Exception as e:  # noqa: BLE001
             err = type(e).__name__
@@ -128,13 +183,20 @@ def send(ctx, sc_: Scenario, i: int, kind: str, data: bytes, t_ms: int, tag: str
         ctx.property_failure("honest_sign_failed", inp, f"signing an honest {kind} failed: {err}, {len(s.r['ll'].sent)} packets")
         return
     frame = s.r["ll"].sent[0]
-    d = sc.dec_data(frame[4:])
-    sd = d["content"][1]
-    hi = sd["tbsData"]["headerInfo"]
+    try:
+        assert (frame[0] & 0x0F) == 2, "next header is not SECURED_PACKET"
+        d = sc.dec_data(frame[4:])
+        assert d["content"][0] == "signedData", "content is not signedData"
+        sd = d["content"][1]
+        hi = sd["tbsData"]["headerInfo"]
+    except Exception as e:  # noqa: BLE001
+        ctx.property_failure("honest_not_secured", inp, f"the packet emitted for an honest {kind} with security enabled is not a "
+                             f"signed secured packet: {e}", "EtsiTs103097Data-Signed after a basic header with NH = 2", frame[:12].hex())
+        return
     plain = sd["tbsData"]["payload"]["data"]["content"][1]
     signer = sd["signer"][0]
     # ---- profile oracle (TS 103 097 clause 7.1), independent of the model --------------------------
-    psid = KIND_PSID[kind]
+    psid = kind_psid(full_kind)
     fields = set(hi.keys())
     if hi.get("psid") != psid:
         ctx.property_failure("profile_psid", inp, "headerInfo.psid differs from the ITS-AID of the request", psid, hi.get("psid"))
@@ -165,6 +227,22 @@ def send(ctx, sc_: Scenario, i: int, kind: str, data: bytes, t_ms: int, tag: str
             cls = "p2pcd_request_for_known_ticket" if set(got_req) - set(want) else "p2pcd_request_missing"
             ctx.property_failure(cls, inp, "inlineP2pcdRequest differs from the tickets seen and not yet known",
                                  [h.hex() for h in want], [h.hex() for h in got_req])
+        # clause 7.1.1: a CA certificate this station holds and a peer asked for (inlineP2pcdRequest of an accepted CAM) is
+        # sent as requestedCertificate in the next CAM, one per CAM, and only then
+        exp_h3 = sc_.ca_asked[i][0] if sc_.ca_asked[i] else None
+        got_rc = hi.get("requestedCertificate")
+        if exp_h3 is None and got_rc is not None:
+            ctx.property_failure("p2pcd_ca_answer_unjustified", inp, "CAM/VAM carries requestedCertificate although no peer "
+                                 "asked for a CA certificate this station holds (or the request was answered already)")
+        elif exp_h3 is not None and got_rc is None:
+            ctx.property_failure("p2pcd_ca_answer_missing", inp, "a peer asked for a CA certificate this station holds; the "
+                                 "next CAM/VAM does not carry it as requestedCertificate", exp_h3.hex(), None)
+        elif exp_h3 is not None and sc.enc_cert(got_rc) != sc.enc_cert(sc_.held[i][exp_h3]):
+            ctx.property_failure("p2pcd_ca_answer_wrong", inp, "requestedCertificate is not the CA certificate that was asked for",
+                                 exp_h3.hex(), sc.hashed_id8(got_rc).hex())
+        if exp_h3 is not None:
+            sc_.ca_asked[i].pop(0)
+            ctx.dist["ca_answer_expected"] = ctx.dist.get("ca_answer_expected", 0) + 1
     elif kind == "denm":
         if signer != "certificate":
             ctx.property_failure("denm_signer", inp, "DENM not signed with the certificate", "certificate", signer)
@@ -203,9 +281,11 @@ def send(ctx, sc_: Scenario, i: int, kind: str, data: bytes, t_ms: int, tag: str
         confirm, inds, exc = feed(r, frame)
         jinp = dict(inp, receiver=j)
         carries = signer == "certificate"
-        expect_accept = carries or sc_.known[j][i]
+        chain = sc_.chain_ok[j][i]       # the receiver holds the authority that issued the sender's ticket
+        expect_accept = (carries and chain) or sc_.known[j][i]
         ok = confirm is not None and confirm.report.value == 0
-        ctx.count(1, f"recv:{kind}:{'cert' if carries else 'digest'}:{'known' if sc_.known[j][i] else 'unknown'}")
+        ctx.count(1, f"recv:{kind}:{'cert' if carries else 'digest'}:{'known' if sc_.known[j][i] else 'unknown'}"
+                     f"{'' if chain else ':issuer_unknown'}")
         if confirm is None:
             results.append(["crash"])
         else:
@@ -223,7 +303,7 @@ def send(ctx, sc_: Scenario, i: int, kind: str, data: bytes, t_ms: int, tag: str
                     ctx.property_failure("payload_not_delivered", jinp, "accepted message was not indicated with the sender's "
                                          "data unchanged", data.hex(), [bytes(x.data).hex() for x in inds])
                 ctx.nontriv(("accept", kind, signer, plain.hex()[:40], j))
-        if sc_.pending[j][i] == "requested" and kind in ("cam", "vam"):
+        if sc_.pending[j][i] == "requested" and kind in ("cam", "vam") and chain:
             if not (ok and carries):
                 ctx.property_failure("p2pcd_too_slow", jinp, "after the receiver's request reached the sender, the sender's next "
                                      "CAM is not accepted (two further exchanges)", "certificate + SUCCESS",
@@ -238,6 +318,17 @@ def send(ctx, sc_: Scenario, i: int, kind: str, data: bytes, t_ms: int, tag: str
                     sc_.wanted[j].remove(s.h8[-3:])
             if "inlineP2pcdRequest" in hi and r.h8[-3:] in [bytes(h) for h in hi["inlineP2pcdRequest"]]:
                 sc_.asked[j] = True
+            for h in [bytes(h) for h in hi.get("inlineP2pcdRequest", [])]:
+                if h in sc_.held[j] and h not in sc_.ca_asked[j]:
+                    sc_.ca_asked[j].append(h)
+            if "requestedCertificate" in hi:
+                # somebody answered: the receiver neither asks for nor offers this CA certificate any longer
+                h = sc.hashed_id8(hi["requestedCertificate"])[-3:]
+                if h in sc_.ca_asked[j]:
+                    sc_.ca_asked[j].remove(h)
+                if h in sc_.wanted[j]:
+                    sc_.wanted[j].remove(h)
+                ctx.dist["ca_certificate_received"] = ctx.dist.get("ca_certificate_received", 0) + 1
             if kind in ("cam", "vam") and sc_.pending[i][j] == "rejected":
                 # j's message reached i earlier and was rejected; i's CAM (with the request) has now reached j
                 sc_.pending[i][j] = "requested"
@@ -248,6 +339,13 @@ def send(ctx, sc_: Scenario, i: int, kind: str, data: bytes, t_ms: int, tag: str
             if sc_.pending[j][i] is None:
                 sc_.pending[j][i] = "rejected"
             ctx.nontriv(("unknown", kind, j, i, t_ms))
+        elif carries and not chain and not sc_.known[j][i]:
+            # the certificate cannot be chained: the receiver asks for the issuing authority's certificate
+            sc_.saw_unknown[j] = True
+            h = sc.hashed_id8(sc_.aas[sc_.aa_of[i]][0])[-3:]
+            if h not in sc_.wanted[j]:
+                sc_.wanted[j].append(h)
+            ctx.nontriv(("issuer_unknown", kind, j, i, t_ms))
     sc_.model_ops.append((i, op, rcv))
     sc_.impl.append((impl_msg, results, sc_.dumps(), inp))
     if len(ctx.samples) < 6:
@@ -292,10 +390,10 @@ def compare_model(ctx, sc_: Scenario, tag):
 # ---------------------------------------------------------------------------
 # schedules
 
-def run_schedule(ctx, n, preload, joins, events, tag, ticket_specs=None):
+def run_schedule(ctx, n, preload, joins, events, tag, ticket_specs=None, opts=None):
     """joins: {station: t_ms}; events: list of (t_ms, sender, kind, data) sorted by time"""
     VCLOCK.set_ms(1_700_000_000_000)
-    sc_ = Scenario(ctx, n, preload, ticket_specs)
+    sc_ = Scenario(ctx, n, preload, ticket_specs, opts)
     t0 = VCLOCK.ms + 10_000
     for (t, i, kind, data) in sorted(events, key=lambda e: e[0]):
         for j, tj in joins.items():
@@ -386,6 +484,98 @@ def random_schedule(ctx, k):
     run_schedule(ctx, n, preload, joins, ev, f"random/{k}")
 
 
+# ---------------------------------------------------------------------------
+# audit round
+
+def multi_requester(ctx, phases, orders):
+    """stations 0 (S) and 1 (T) exchange CAMs from t=0. Station 2 (J) joins knowing only root and AA, station 3 (K) joins
+    pre-loaded with ONE of the two tickets, so that between two CAMs of S (and of T) several requests with different lists
+    arrive: J asks for S and T, K only for the one it lacks. Every station that was asked must answer with its certificate in
+    its next CAM whatever other requests it received in between (clause 7.1.1). orders: which of J / K transmits first;
+    a fifth station (L, pre-loaded with both) that asks for nobody is added in half of the schedules."""
+    for phase in phases:
+        for order in orders:
+            for k_knows in (0, 1):
+                n = 5 if (phase // 10 + k_knows) % 2 else 4
+                ev = [(t, 0, "cam", bytes([0, t // 200 % 256, 9])) for t in range(0, 3800, 200)]
+                ev += [(t, 1, "cam", bytes([1, t // 200 % 256, 8])) for t in range(70, 3800, 200)]
+                join = 1500 + phase
+                first, second = (2, 3) if order == "JK" else (3, 2)
+                ev += [(t, first, "cam", bytes([first, (t - join) // 450 % 256])) for t in range(join + 310, 3800, 450)]
+                ev += [(t, second, "cam", bytes([second, (t - join) // 450 % 256])) for t in range(join + 330, 3800, 450)]
+                joins = {0: 0, 1: 0, 2: join, 3: join}
+                preload = {0: [1], 1: [0], 3: [k_knows]}
+                if n == 5:
+                    ev += [(t, 4, "cam", bytes([4, (t - join) // 450 % 256])) for t in range(join + 345, 3800, 450)]
+                    joins[4] = join
+                    preload[4] = [0, 1]
+                run_schedule(ctx, n, preload, joins, ev, f"multi_requester/phase{phase}/{order}/k_knows{k_knows}")
+
+
+def two_authorities(ctx, phases):
+    """two authorization authorities under the common root. Stations 0 (A, ticket from AA1) and 1 (C, ticket from AA2) hold
+    both authority certificates; station 2 (B, ticket from AA2) holds the root and AA2 only. B cannot chain A's certificate
+    and asks for the authority's certificate (HashedId3 of AA1 in inlineP2pcdRequest); A and C hold it and must answer with
+    requestedCertificate in their next CAM - once each. Acceptance is demanded wherever the receiver holds the issuing
+    authority (the property's receivers know root and AA); B's requests and everybody's answers are checked by the profile
+    oracle and against the model."""
+    for phase in phases:
+        ev = [(t, 0, "cam", bytes([0, t // 300 % 256, 5])) for t in range(0, 5200, 300)]
+        ev += [(t, 1, "cam", bytes([1, t // 300 % 256, 6])) for t in range(100, 5200, 300)]
+        join = 1000 + phase
+        ev += [(t, 2, "cam", bytes([2, (t - join) // 400 % 256])) for t in range(join + 50, 5200, 400)]
+        ev += [(join + 2000, 0, "denm", b"\x0d"), (join + 2200, 2, "generic", b"\x0e"), (join + 2300, 1, "vam", b"\x0f")]
+        run_schedule(ctx, 3, {}, {0: 0, 1: 0, 2: join}, ev, f"two_authorities/phase{phase}",
+                     opts={"aa_of": {0: 1, 1: 2, 2: 2}, "knows_aa": {0: [1, 2], 1: [1, 2], 2: [2]}})
+
+
+POSITIONS = [(0, 0), (-337000000, -705000000), (-1, -1), (600000000, 1790000000), (-800000000, 1799999999),
+             (1, -1800000000), (899999990, 1799999990)]
+BIG_PSIDS = [0, 127, 128, 16383, 16384, 2097151, 2097152, 2 ** 31 - 1]
+
+
+def positions_psids_ssp(ctx, positions, psid_sets):
+    """'all ITS-AIDs covered by the ticket, all generation positions': stations on the southern / western hemisphere, on the
+    equator / prime meridian and near the limits of the coordinate range (generationLocation of DENMs); tickets that carry
+    service specific permissions; tickets covering other ITS-AID sets, including ITS-AIDs whose encoding takes 1, 2, 3 and 4
+    octets (generic profile)"""
+    for k, pos in enumerate(positions):
+        extra = psid_sets[k % len(psid_sets)]
+        apps = {0: U + extra, 1: [36, 37] + extra[:1], 2: U}
+        ev = [(t, 0, "cam", bytes([0, t // 400 % 256, 3])) for t in range(0, 2600, 400)]
+        ev += [(t, 1, "cam", bytes([1, t // 500 % 256])) for t in range(130, 2600, 500)]
+        ev += [(t, 2, "vam", bytes([2, t // 700 % 256])) for t in range(260, 2600, 700)]
+        ev += [(900, 0, "denm", b"\x01\x02"), (1500, 1, "denm", b"\x03"), (1900, 2, "denm", b"\x04")]
+        for q, p in enumerate(extra):
+            ev.append((1000 + 110 * q, 0, f"generic:{p}", bytes([q, 7])))
+        ev.append((2100, 1, f"generic:{extra[0]}", b"\x09"))
+        run_schedule(ctx, 3, {2: [0]}, {0: 0, 1: 0, 2: 0}, ev, f"positions_psids/{pos}/{extra}",
+                     opts={"pos": pos, "apps": apps, "ssp": k % 2 == 0, "aa_of": {0: 2, 1: 2, 2: 2}, "more_psids": BIG_PSIDS})
+
+
+def denm_from_outside(ctx, offsets):
+    """the DENM originator stands outside the destination area (non-area forwarding branch of the GeoBroadcast source
+    operations: the secured payload is handed to the next hop), the receivers inside it"""
+    for k, (dlat, dlon) in enumerate(offsets):
+        pos = POSITIONS[k % 3]
+        ev = [(t, 1, "cam", bytes([1, t // 300 % 256])) for t in range(0, 3000, 300)]
+        ev += [(t, 2, "cam", bytes([2, t // 400 % 256])) for t in range(110, 3000, 400)]
+        ev += [(t, 0, "cam", bytes([0, t // 500 % 256])) for t in range(220, 3000, 500)]
+        ev += [(900, 0, "denm", b"\x11\x12"), (1700, 0, "denm", b"\x13"), (2500, 0, "denm", b"\x14\x15\x16")]
+        run_schedule(ctx, 3, {}, {0: 0, 1: 0, 2: 0}, ev, f"denm_from_outside/{pos}/{(dlat, dlon)}",
+                     opts={"pos": pos, "pos_of": {0: (pos[0] + dlat, pos[1] + dlon)}})
+
+
+def validity_start(ctx):
+    """a ticket whose validity period starts exactly at the generation time of the station's first message (and one
+    millisecond before it): honest from its first microsecond"""
+    for off in (0, 1):
+        ev = [(2000 + off + t, 0, "cam", bytes([0, t // 250 % 256])) for t in range(0, 2500, 250)]
+        ev += [(2000 + off, 0, "generic", b"\x01"), (2000 + off, 0, "denm", b"\x02"), (2000 + off, 0, "vam", b"\x03")]
+        ev += [(t, 1, "cam", bytes([1, t // 500 % 256])) for t in range(150, 4500, 500)]
+        run_schedule(ctx, 3, {2: [0]}, {0: 2000, 1: 0, 2: 0}, ev, f"validity_start/+{off}ms", ticket_specs={0: ("start_at", 2000)})
+
+
 def run(ctx):
     ctx.rule = ("N real stations (Router with security enabled + SignService + VerifyService, common root and AA, own tickets "
                 "covering ITS-AIDs 36, 37, 638, 139) on a virtual clock; schedules of CAM / VAM / DENM / generic messages with "
@@ -409,6 +599,13 @@ def run(ctx):
     two_senders_joiner(ctx, [0, 130, 260] if quick else list(range(0, 1000, 50)))
     validity_sweep(ctx, VALIDITY_SPECS if not quick else [VALIDITY_SPECS[i] for i in (0, 2, 3, 5, 7, 9)],
                    [3600 + 20, 20] if quick else [5 * 3600, 3600 + 20, 61, 20])
+    # audit round
+    multi_requester(ctx, [ctx.rng.choice([0, 60, 130])] if quick else list(range(0, 1000, 70)), ["JK", "KJ"])
+    two_authorities(ctx, [0, 170] if quick else list(range(0, 1200, 100)))
+    pp = [BIG_PSIDS[:3], BIG_PSIDS[3:6], BIG_PSIDS[6:]]
+    positions_psids_ssp(ctx, POSITIONS[:3] if quick else POSITIONS, pp)
+    validity_start(ctx)
+    denm_from_outside(ctx, [(100000, 0)] if quick else [(100000, 0), (0, -150000), (-20000, 20000), (3000, 0)])
     for k in range(5 if quick else 60):
         random_schedule(ctx, k)
     ctx.exhaustive = False
